@@ -37,6 +37,8 @@ MODELLED = {
     "cfuns.c:do_get": {"07f7bdd0343c"},
     "corelib.c:janet_quick_asm": {"e12b20bbbacb"},
     "bytecode.c:janet_bytecode_remove_noops": {"0ad35bc10f6b"},
+    "compile.c:janetc_call.selection": {"68f9fccd8e4b"},
+    "specials.c:janetc_check_nil_form": {"495826777292"},
 }
 
 
@@ -298,6 +300,41 @@ def extract_movopt(tree, ops, found):
     return reads, removable
 
 
+
+# ------------------------------------------------------------------------------------------------ call-site selection
+def extract_selection(tree, found):
+    """compile.c janetc_call: when the specialisation is applied; specials.c: the nil fast paths of if / while"""
+    src = csrc.strip_comments(csrc.read(tree, "src/core/compile.c"))
+    b = csrc.func_body(src, "janetc_call")
+    i = b.find("int specialized = 0;")
+    j = b.find("if (!specialized)")
+    if i < 0 or j < 0:
+        raise ExtractError("janetc_call: selection block not found")
+    sel = norm(b[i:j])
+    check_fp("compile.c:janetc_call.selection", sel, found)
+    want = ("if (fun.flags & JANET_SLOT_CONSTANT && !has_spliced(slots)) { if (janet_checktype(fun.constant, JANET_FUNCTION)) { "
+            "JanetFunction *f = janet_unwrap_function(fun.constant); const JanetFunOptimizer *o = janetc_funopt(f->def->flags); "
+            "if (o && (!o->can_optimize || o->can_optimize(opts, slots))) { specialized = 1;")
+    if want not in sel:
+        raise ExtractError("janetc_call: specialisation is no longer selected by (constant function head, no splice, tagged, arity guard)")
+    sp = csrc.strip_comments(csrc.read(tree, "src/core/specials.c"))
+    check_fp("specials.c:janetc_check_nil_form", csrc.func_body(sp, "janetc_check_nil_form"), found)
+    paths = {}
+    ib = norm(csrc.func_body(sp, "janetc_if"))
+    for m in re.finditer(r"janetc_check_nil_form\(condform, &condform, JANET_FUN_(\w+)\)\) \{ ifnjmp = (JOP_\w+); \}", ib):
+        paths[("if", m.group(1))] = m.group(2)
+    wb = norm(csrc.func_body(sp, "janetc_while"))
+    for m in re.finditer(r"janetc_check_nil_form\(condform, &condform, JANET_FUN_(\w+)\)\) \{ is_\w+ = 1; ifjmp = (JOP_\w+); ifnjmp = (JOP_\w+); \}", wb):
+        paths[("while", m.group(1))] = m.group(3)
+    if len(paths) != 4:
+        raise ExtractError("nil fast paths of if / while not recognised (found %s)" % sorted(paths))
+    m = re.search(r"if \(ifnjmp == JOP_JUMP_IF_NOT && !janet_truthy\(cond.constant\)\) swap_condition = 1; "
+                  r"if \(ifnjmp == JOP_JUMP_IF_NIL && janet_checktype\(cond.constant, JANET_NIL\)\) swap_condition = 1; "
+                  r"if \(ifnjmp == JOP_JUMP_IF_NOT_NIL && !janet_checktype\(cond.constant, JANET_NIL\)\) swap_condition = 1;", ib)
+    if not m:
+        raise ExtractError("janetc_if: constant-condition polarity test not of the expected shape")
+    return paths
+
 # ------------------------------------------------------------------------------------------------ render
 def lname(c):
     return "." + gbc.lean_name(c)
@@ -318,6 +355,7 @@ def render(tree):
     rows, guards, special_unary = extract_cfuns(tree, found)
     funs = extract_corelib(tree, ops, found)
     reads, removable = extract_movopt(tree, ops, found)
+    paths = extract_selection(tree, found)
     o = [csrc.lean_header("src/core/cfuns.c, src/core/corelib.c, src/core/bytecode.c, src/core/compile.h"),
          "import JanetModel.Gen.Bytecode\n", "namespace JanetModel.Gen.Cfuns", "open JanetModel.Gen.Bytecode\n"]
     o.append("/-- constant argument of a specialisation (`janet_wrap_nil()` / `janet_wrap_integer(n)`) -/\ninductive Const where\n  | nil\n  | int (n : Int)\n  deriving DecidableEq, Repr, Inhabited\n")
@@ -382,6 +420,10 @@ def render(tree):
         if name in removable:
             o.append("  | %s => some .%s" % (lname(name), removable[name]))
     o.append("  | _ => none\n")
+    o.append("/-- `(= nil x)` / `(not= nil x)` conditions of `if` / `while` (specials.c `janetc_check_nil_form`): special form, tag name of the\n"
+             "    head function, opcode of the jump that LEAVES the then-branch / the loop -/\nabbrev nilFastPaths : List (String × String × Op) := [")
+    o.append(",\n".join('  ("%s", "%s", %s)' % (k[0], k[1], lname(v)) for k, v in sorted(paths.items())))
+    o.append("]\n")
     o.append("/-- fingerprints of the C bodies that are modelled by hand (informational) -/\ndef fingerprints : List (String × String) := [")
     o.append(",\n".join('  ("%s", "%s")' % kv for kv in sorted(found.items())))
     o.append("]\n")
@@ -391,7 +433,7 @@ def render(tree):
 
 def fingerprints(tree):
     """helper used once to (re)compute the accepted fingerprints"""
-    saved = {k: set(v) for k, v in MODELLED.items()}
+    saved = {k: (set(v) if v is not None else None) for k, v in MODELLED.items()}
     out = {}
     try:
         for k in MODELLED:
@@ -401,6 +443,7 @@ def fingerprints(tree):
         extract_cfuns(tree, out)
         extract_corelib(tree, ops, out)
         extract_movopt(tree, ops, out)
+        extract_selection(tree, out)
     finally:
         MODELLED.update(saved)
     return out
